@@ -49,8 +49,8 @@ CHECKS.update({
     "C07": {"technique": "TLA+ spec V2Match at thresholds 0.5 and 0.8 model-checked and replayed stage by stage into the real functions + buffer-alignment sweep + recorded Match pairs (X alone, P.X.S) validated by TLC (V2Contract.Pair, kind shift); known clamp finding recognised by hook signature",
             "text": "Edited corpus texts, scenario files and concatenations alone and between out-of-vocabulary blocks; TLC requires the bag of matches to be equal after shifting token indices and lines.",
             "note": "sampled inputs."},
-    "C08": {"technique": "TLA+ spec V2Buffer (byte buffer, carry-over, stale bytes) model-checked with non-vacuity configs + recorded MatchFrom/Match histories validated by TLC",
-            "text": "TLC explores every stream of <= 3 (4) runes of widths 1-4 incl. truncated sequences x every pad 0..20 x reader faults for BufSize 8; on the real code 8 fragmentations, every pad 0..2056 and failing readers at every offset are recorded and validated (Pair / MatchFail).",
+    "C08": {"technique": "TLA+ specs V2Buffer (byte buffer, carry-over, stale bytes) and V2Fill (the refill loop, one action per Read; liveness) model-checked with non-vacuity configs, every reader script replayed into the real fill() + recorded MatchFrom/Match histories validated by TLC",
+            "text": "TLC explores every stream of <= 3 (4) runes of widths 1-4 incl. truncated sequences x every pad 0..20 x reader faults for BufSize 8; on the real code 8 fragmentations, every pad 0..2056 and failing readers at every offset, readers with empty reads, and calls that overlap in time after failed ones are recorded and validated (Pair / MatchFail / memo).",
             "note": "buffer model is scaled (8 bytes); sticky reader errors."},
     "C10": {"technique": "TLC-enumerated tokenizer inputs replayed under recover + recorded histories of mutated inputs x thresholds x corpora with per-call watchdog, validated by TLC (every return WellFormed)",
             "text": "Structure-aware mutations (invalid UTF-8, NULs, entities, megabyte lines, storms, boundary truncation) x thresholds 0..1 x corpora (small, empty, with empty documents, full) through Match, MatchFrom, Normalize, AddContent; a panic or timeout is an event without a spec action.",
@@ -70,7 +70,7 @@ CHECKS.update({
     "C14": {"technique": "TLA+ protocol spec V1Classifier (lazy search-set) model-checked incl. liveness + hook-event histories of concurrent calls validated by TLC with vector-clock happens-before (TraceConc) + results vs sequential results (TraceV1); Go race detector as second sensor",
             "text": "TLC explores all interleavings of 3 callers x 2 values of the repaired protocol (and refutes the check-outside-lock variant); on the real code every lock operation, access and fork is an event and TLC recomputes happens-before, rejecting the history at the first unordered conflicting access.",
             "note": "25 (150) rounds of 4 (8) callers; License with precomputed sets covered through results and the race detector."},
-    "C15": {"technique": "TLA+ spec V1Archive (entry pairing, RoundTrip) with every small ordered file set archived and loaded for real + recorded NearestMatch/MultipleMatch answers of an archive-loaded and a directly built License validated by TLC (TraceV1 memo equality, key sets, normalised values)",
+    "C15": {"technique": "TLA+ specs V1Archive (entry pairing, RoundTrip) with every small ordered file set archived and loaded for real and V1ArchiveWriter (buffering compressor over a destination that fails; success means written) bound by failing destinations under the real ArchiveLicenses + recorded NearestMatch/MultipleMatch answers of an archive-loaded and a directly built License validated by TLC (TraceV1 memo equality, key sets, normalised values)",
             "text": "Seeded subsets/orderings of the shipped licenses plus synthetic files go through the real ArchiveLicenses and New(ArchiveBytes); both classifiers must hold the same keys and values and answer 16 (60) queries per round identically.",
             "note": "NearestMatch compared at or above the threshold only (undefined among ties; go-diff's 1 s deadline)."},
     "C16": {"technique": "TLA+ spec V1Normalize (normaliser pipeline as built; NormRecase, NormDecorate) model-checked and replayed into the real normalizeText + recorded NearestMatch/MultipleMatch calls on corpus texts and presentation variants validated by TLC (TraceV1 guards want/floor)",
@@ -82,10 +82,10 @@ CHECKS.update({
 })
 
 CHECKS.update({
-    "C09": {"technique": "TLA+ ownership spec V2Concurrent model-checked (NoRace, SeqEquivalent; sharing the corpus array with the diff library refuted) + concurrent Match histories validated by TLC against the sequential results (TraceV2 memo) + race detector as sensor for accesses inside the dependency",
-            "text": "8 (64) goroutines match 15 inputs that make them score the same documents concurrently; every concurrent result must equal the sequential one bit for bit; the diffcall hook shows whether corpus storage is handed to go-diff; data races are observed by the race detector.",
+    "C09": {"technique": "TLA+ ownership spec V2Concurrent (NoRace, SeqEquivalent; sharing the corpus array with the diff library refuted) and V2Backend (result list of the CLI backend under overlapping runs; a lock per run refuted) model-checked + concurrent Match histories validated by TLC against the sequential results (TraceV2 memo) + race detector as sensor for accesses inside the dependency",
+            "text": "8 (64) goroutines match 15 inputs that make them score the same documents concurrently; every concurrent result must equal the sequential one bit for bit; the diffcall hook shows whether corpus storage is handed to go-diff; data races are observed by the race detector; adjacent sub-slices of one buffer as inputs; overlapping ClassifyLicenses runs on one backend must append R times the entries of one run.",
             "note": "the write happens inside a dependency where no hook can sit; the race detector's report is the observation, the model supplies the ownership rule and the schedule."},
-    "C19": {"technique": "TLA+ spec V2Pool (token pool, WaitGroup, mutex-protected append; liveness) model-checked with three refuted variants + real CLI runs validated by TLC (TraceCLI.CLIReturn) against in-process Match",
+    "C19": {"technique": "TLA+ specs V2Pool (token pool, WaitGroup, mutex-protected append; liveness; three refuted variants), V2CLIScope (expandFiles) and V2CLILines (readFileLines) model-checked, every enumerated scope / quoting case replayed into the real functions + real CLI runs validated by TLC (TraceCLI.CLIReturn) against in-process Match",
             "text": "TLC explores all interleavings of 3 files / 2 tasks: no lost append, bounded concurrency, no send on the closed channel, termination; the binary built from the current tree (and a -race build) runs over seeded trees x flags x -tasks and its stdout, JSON and exit status must be exactly what Match returns for the files' bytes.",
             "note": "-tasks 0 is outside the domain; lock modes are not observable through hooks, lost appends are looked for with files that produce 1500+ matches and the -race build."},
 })
